@@ -313,11 +313,12 @@ func main() {
 		return
 	}
 	part := os.Getenv("VERIF_PART")
-	r := ev.StartPart("C12", part, "model_checking", 60*time.Second, 15*time.Minute)
+	r := ev.StartPart("C12", part, "model_checking", 40*time.Second, 12*time.Minute)
 	r.Rule = "C12b: stateless DFS (engine E1, delay-bounded) over schedules x {database fails at the middle row, client goes away at any moment} of the real LogQL processor chain per scenario (query x result-set size x limit x cancel thread); distinct = observed outcome classes"
 	r.Assumptions = append(r.Assumptions, "C12b: the request context is not passed to database/sql (its watcher goroutine is outside the scheduler); cancellation reaches the code through ctx.Ctx.Done()")
 	if r.Replay != "" {
-		ev.Fatal("replay of C12b schedules: use VERIF_PART=C12b bin/check C12B --replay (not wired)")
+		replay(r)
+		return
 	}
 	scs := all
 	if !r.Thorough() {
@@ -328,7 +329,12 @@ func main() {
 		b    sched.Bounds
 	}{
 		{"sync-points P<=1 F<=1", sched.Bounds{Preempt: 1, Faults: 1, Horizon: 20000, NoYields: true}},
-		{"sync-points P<=2 F<=1", sched.Bounds{Preempt: 2, Faults: 1, Horizon: 20000, NoYields: true}},
+	}
+	if r.Thorough() {
+		passes = append(passes, struct {
+			name string
+			b    sched.Bounds
+		}{"sync-points P<=2 F<=1", sched.Bounds{Preempt: 2, Faults: 1, Horizon: 20000, NoYields: true}})
 	}
 	var report []map[string]any
 	total := &sched.Stats{}
@@ -363,6 +369,21 @@ func main() {
 			cls += ":" + strings.ReplaceAll(v.What[i+2:], " ", "")
 		}
 		r.Violate(cls, v.Scn+": "+v.What, v)
+	}
+	r.Finish()
+}
+
+func replay(r *ev.Run) {
+	rp, res, outcome, fs, err := sched.ReplayFile(r.Replay, lookup)
+	if err != nil {
+		ev.Fatal("replay: %v", err)
+	}
+	fmt.Println(strings.Join(res.Trace, "\n"))
+	fmt.Println("outcome:", outcome, "failure:", res.Failure)
+	r.AddEval(1)
+	r.States, r.Transitions, r.TracesValidated = int64(len(res.Points)), int64(res.Steps), 1
+	for _, f := range fs {
+		r.Violate(f.Class, f.What, rp)
 	}
 	r.Finish()
 }
